@@ -77,6 +77,7 @@ type link struct {
 	tr        *transport.Transport
 	peer      io.ReadWriter // the peer's end of the byte stream of the current Open
 	killPeer  func()        // the peer goes away abruptly
+	leave     func()        // the peer ends the session in an orderly way (everything it wrote before is on its way)
 	peerClose func()        // harness-side release of the current peer connection
 	cleanup   []func()
 	pid       int    // child of the system transport (current Open)
@@ -118,8 +119,14 @@ func (l *link) readMarker(skipPreface bool) error {
 
 // newLink builds the Transport object for `kind` (system | system-netconf | system-ssh |
 // standard-shell | standard-netconf | telnet) and the peer's infrastructure, without opening.
-func newLink(kind string, readSize int, early *earlyPlan) (*link, error) {
+func newLink(kind string, readSize int, early *earlyPlan, sockTO ...time.Duration) (*link, error) {
 	lg, _ := logging.NewInstance()
+	// socket timeout: default 20 s for the ssh transports, 400 ms for telnet (its negotiation window
+	// is a quarter of it); the silence cases pass small ones
+	sshTO, telTO := 20*time.Second, 400*time.Millisecond
+	if len(sockTO) > 0 && sockTO[0] > 0 {
+		sshTO, telTO = sockTO[0], sockTO[0]
+	}
 	l := &link{kind: kind}
 	n := atomic.AddInt64(&seq, 1)
 	var e error
@@ -135,7 +142,7 @@ func newLink(kind string, readSize int, early *earlyPlan) (*link, error) {
 		}
 		l.cleanup = append(l.cleanup, rl.Close)
 		sopts := []util.Option{options.WithSystemTransportOpenBin(self), options.WithSystemTransportOpenArgsOverride(rl.Args()),
-			options.WithTransportReadSize(readSize)}
+			options.WithTransportReadSize(readSize), options.WithTimeoutSocket(sshTO)}
 		if kind == "system-netconf" { // the pty.Start (no window size) path; the transport appends "-s netconf"
 			sopts = append(sopts, withNetconf())
 		}
@@ -150,6 +157,7 @@ func newLink(kind string, readSize int, early *earlyPlan) (*link, error) {
 			}
 			l.peer = c
 			l.killPeer = func() { c.Close() }
+			l.leave = func() { c.Close() } // the stand-in copies what is pending to the pty, then exits
 			l.peerClose = func() { c.Close() }
 			// session is up once the stand-in announced readiness (raw mode is set by then)
 			return l.readMarker(false)
@@ -185,7 +193,7 @@ func newLink(kind string, readSize int, early *earlyPlan) (*link, error) {
 			opts = []util.Option{options.WithAuthPassword(sshPw)}
 		}
 		opts = append(opts, options.WithPort(srv.Port()), options.WithAuthUsername(sshUser),
-			options.WithAuthNoStrictKey(), options.WithTransportReadSize(readSize), options.WithTimeoutSocket(20*time.Second))
+			options.WithAuthNoStrictKey(), options.WithTransportReadSize(readSize), options.WithTimeoutSocket(sshTO))
 		if kind == "standard-netconf" {
 			opts = append(opts, withNetconf())
 		}
@@ -205,6 +213,7 @@ func newLink(kind string, readSize int, early *earlyPlan) (*link, error) {
 				}
 				l.peer = s
 				l.killPeer = s.Kill
+				l.leave = func() { s.CloseWrite(); s.Close() } // orderly end of the session channel
 				l.peerClose = s.Kill
 			case <-time.After(30 * time.Second):
 				return fmt.Errorf("%w: Open returned but the server saw no session", errSetup)
@@ -221,7 +230,7 @@ func newLink(kind string, readSize int, early *earlyPlan) (*link, error) {
 		}
 		l.cleanup = append(l.cleanup, p.Close)
 		l.tr, e = transport.NewTransport(lg, "127.0.0.1", transport.TelnetTransport,
-			options.WithPort(p.Port), options.WithTimeoutSocket(400*time.Millisecond), options.WithTransportReadSize(readSize))
+			options.WithPort(p.Port), options.WithTimeoutSocket(telTO), options.WithTransportReadSize(readSize))
 		if e != nil {
 			return l, e
 		}
@@ -249,6 +258,7 @@ func newLink(kind string, readSize int, early *earlyPlan) (*link, error) {
 			case c := <-connCh:
 				l.peer = c
 				l.killPeer = func() { c.Close() }
+				l.leave = func() { c.Close() } // FIN after the data
 				l.peerClose = func() { c.Close() }
 			case <-time.After(20 * time.Second):
 				return fmt.Errorf("%w: Open returned but the TCP peer saw no connection", errSetup)
@@ -285,11 +295,16 @@ func (l *link) open() error {
 
 // openLink = newLink + open. An error wrapping errSetup means the harness (not the library) failed.
 func openLink(kind string, readSize int, early ...*earlyPlan) (*link, error) {
+	return openLinkTO(kind, readSize, 0, early...)
+}
+
+// openLinkTO is openLink with a socket timeout (0 = default).
+func openLinkTO(kind string, readSize int, sockTO time.Duration, early ...*earlyPlan) (*link, error) {
 	var ep *earlyPlan
 	if len(early) > 0 {
 		ep = early[0]
 	}
-	l, err := newLink(kind, readSize, ep)
+	l, err := newLink(kind, readSize, ep, sockTO)
 	if err == nil {
 		err = l.open()
 	}
